@@ -1,7 +1,7 @@
 (* G09 — C10: remaining facts: draining, connection-level frames, table size, the wire form of a queued
    header block, chunking loses nothing, the client preface. *)
 From FwdLib Require Import Bytes.
-From G09 Require Import Tables H2Relay Ledger Term FlowBasics WinProofs PairBasics PairWin PairMisc Spec.
+From G09 Require Import Tables H2Relay Ledger Term FlowBasics WinProofs PairBasics Lift PairWin PairMisc Spec.
 Open Scope N_scope.
 
 (* ---- enough credit empties a queue *)
@@ -43,13 +43,6 @@ Proof.
   apply list_eqb_refl. intros [a c]. unfold pair_eqb. cbn [fst snd]. rewrite !N.eqb_refl. reflexivity.
 Qed.
 
-Lemma conn_conts id ch : filter is_conn (conts id ch) = [].
-Proof. induction ch as [|c r IH]; [reflexivity|]. cbn [conts]. destruct r; [reflexivity|]. cbn [filter is_conn]. exact IH. Qed.
-Lemma conn_send q : filter is_conn (send q) = [].
-Proof. destruct q; cbn [send filter is_conn]; rewrite ?conn_conts; reflexivity. Qed.
-Lemma conn_sends l : filter is_conn (sends l) = [].
-Proof. unfold sends. induction l as [|q r IH]; [reflexivity|]. cbn [flat_map]. rewrite filter_app, conn_send, IH. reflexivity. Qed.
-
 Section Codec.
   Variables dstate estate : Type.
   Variable dec : dstate -> list N -> option (list field) * dstate.
@@ -59,6 +52,7 @@ Section Codec.
 
   Notation relay := (relay dstate estate).
   Notation pair := (pair dstate estate).
+  Notation pcore := (pcore dec dresize).
   Notation pstep := (pstep dec enc dresize eresize).
   Notation run := (H2Relay.run dec enc dresize eresize).
   Notation tstep_of := (tstep_of dstate estate).
@@ -67,26 +61,44 @@ Section Codec.
              rewrite ?wire_oq, ?wire_ow, ?conn_sends; cbn [filter is_conn list_eqb andb];
              rewrite ?wframe_eqb_refl; try reflexivity.
 
-  Lemma conn_step_ok (p : pair) from f orders : conn_stepb (tstep_of from f orders (pstep p from f orders)) = true.
+  Lemma conn_step_core (p : pair) from f orders : conn_stepb (tstep_of from f orders (pcore p from f orders)) = true.
   Proof.
     unfold conn_stepb. cbn [t_ev t_status PairWin.tstep_of e_from e_frame]. rewrite !frames_to_tstep.
-    unfold pstep. cbv zeta.
+    unfold pcore. cbv zeta.
     destruct f as [id es d flen|id es eh pr frag|id eh frag|id pm eh frag|id pr|id code|ack st|ack d|last code dbg|id inc|].
     - destruct (data_pieces _ _ id d es) as [ps|]; [destruct (enqueue_all ps _) as [fl em]|]; nc;
         destruct ((if credit_frame_length then flen else len d) =? 0); reflexivity.
     - destruct eh; [|nc]. destruct (dec _ frag) as [[fields|] dst']; [|nc].
-      destruct (r_header _ _ _ _ _ _) as [[[me' em] q]|]; nc.
+      destruct (r_header _ _ _ _ _) as [[[me' em] q]|]; nc.
     - destruct eh; [|nc]. destruct (dec _ _) as [[fields|] dst']; [|nc].
-      cbn [r_cont]. destruct (r_cont _); [|nc]. destruct (complete _ _ _ _) as [[[me' em] q]|]; nc.
+      cbn [r_cont]. destruct (r_cont _); [|nc]. destruct (complete _ _ _) as [[[me' em] q]|]; nc.
     - destruct eh; [|nc]. destruct (dec _ frag) as [[fields|] dst']; [|nc].
-      destruct (r_push _ _ _ _ _) as [[[me' em] q]|]; nc.
+      destruct (r_push _ _ _ _) as [[[me' em] q]|]; nc.
     - destruct (enqueue_emit _ _) as [fl em]. nc.
     - destruct (enqueue_emit _ _) as [fl em]. nc.
-    - destruct ack; [nc|]. destruct (apply_settings _ _ _ _ _ _) as [[peer' acc'] ok]. destruct ok; nc.
+    - destruct ack; [nc|].
+      pose proof (apply_settings_noW dstate estate dresize st orders (toward from p) [] ltac:(constructor)) as Hq.
+      destruct (apply_settings _ _ _ _ _) as [[peer' acc'] ok]. cbn [fst snd] in Hq.
+      destruct ok; rewrite ?res_to_from, ?res_to_other, ?res_status, (noW_conn _ Hq); cbn [wire wire1 flat_map app filter is_conn r2w list_eqb andb];
+        rewrite ?wframe_eqb_refl; reflexivity.
     - nc.
     - nc.
     - destruct (update_window _ _ _ _) as [fl em]. nc.
     - nc.
+  Qed.
+
+  Lemma conn_step_ok (p : pair) from f orders : conn_stepb (tstep_of from f orders (pstep p from f orders)) = true.
+  Proof.
+    pose proof (conn_step_core p from f orders) as Hc.
+    unfold conn_stepb in *. cbn [t_ev t_status PairWin.tstep_of e_from e_frame] in *. rewrite !frames_to_tstep in *.
+    destruct (pstep_cases dstate estate dec enc dresize eresize p from f orders) as [[oc [ec [os [es' [H1 [H2 Hs]]]]]] | Hs];
+      cbv zeta in Hs; rewrite Hs; [|destruct from; reflexivity].
+    assert (Hw : forall x, filter is_conn (wire (s_to x (mkRes (mkPair (with_est (toC (s_pair (pcore p from f orders))) ec)
+                                                         (with_est (toS (s_pair (pcore p from f orders))) es')) oc os
+                                                 (s_status (pcore p from f orders)) (s_enq (pcore p from f orders))))) =
+                           filter is_conn (wire (s_to x (pcore p from f orders)))).
+    { intros [|]; cbn [s_to s_toC s_toS]; apply Prep_conn; assumption. }
+    rewrite !Hw. cbn [s_status]. exact Hc.
   Qed.
 
   (* T10_conn_frames *)
@@ -104,14 +116,14 @@ Section Codec.
   Qed.
 
   (* T10_table_size: SETTINGS_HEADER_TABLE_SIZE of an endpoint resizes the encoder of the relay that sends to it
-     (and nothing of the relay that reads from it) *)
+     and no other encoder *)
   Theorem table_size_step (p : pair) from v orders :
     r_est (toward from (s_pair (pstep p from (RSettings false [(1, v)]) orders))) = eresize (r_est (toward from p)) v /\
-    toward (other from) (s_pair (pstep p from (RSettings false [(1, v)]) orders)) = toward (other from) p.
+    r_est (toward (other from) (s_pair (pstep p from (RSettings false [(1, v)]) orders))) = r_est (toward (other from) p).
   Proof.
-    unfold pstep. cbv zeta. cbn [apply_settings].
+    unfold H2Relay.pstep, H2Relay.pcore. cbv zeta. cbn [apply_settings].
     assert (E : settings_validated && negb (setting_valid 1 v) = false) by (unfold setting_valid; cbn; apply andb_false_r).
-    rewrite E. cbn [N.eqb Pos.eqb]. rewrite res_toward_from, res_toward_other. split; reflexivity.
+    rewrite E. cbn [N.eqb Pos.eqb app]. destruct from; cbn; split; reflexivity.
   Qed.
 End Codec.
 
@@ -212,3 +224,52 @@ Proof.
   rewrite Hr, Hc, firstn_app, Nat.sub_diag, firstn_O, app_nil_r, firstn_all, str_eqb_refl. cbn [fst snd].
   split; [reflexivity|]. rewrite Hrest, Hc, skipn_app, Nat.sub_diag, skipn_all. reflexivity.
 Qed.
+
+(* ---- header blocks leave in the order they are encoded *)
+Section Order.
+  Variables estate : Type.
+  Variable enc : estate -> list field -> list N * estate.
+  Variable eresize : estate -> N -> estate.
+
+  (* the successive outputs of the relay's HPACK encoder while it writes l (encoder resizes included) *)
+  Fixpoint enc_trace (est : estate) (l : list oframe) : list (list N) :=
+    match l with
+    | [] => []
+    | OQ (QHdr _ _ _ f _) :: r => let '(bytes, est') := enc est f in bytes :: enc_trace est' r
+    | OQ (QPush _ _ f _) :: r => let '(bytes, est') := enc est f in bytes :: enc_trace est' r
+    | OResize v :: r => enc_trace (eresize est v) r
+    | _ :: r => enc_trace est r
+    end.
+
+  (* the header blocks on the wire, in wire order *)
+  Definition blocks (l : list oframe) : list (list N) :=
+    flat_map (fun o => match o with
+                       | OQ (QHdr _ _ _ _ ch) => [concat ch]
+                       | OQ (QPush _ _ _ ch) => [concat ch]
+                       | _ => [] end) l.
+
+  Theorem blocks_in_encoding_order : forall l est maxp l' est',
+    run_script enc eresize est maxp l = Some (l', est') -> blocks l' = enc_trace est l.
+  Proof.
+    induction l as [|o r IH]; intros est maxp l' est' H; cbn [run_script] in H.
+    - inversion H. reflexivity.
+    - destruct o as [q|w|v|m].
+      + destruct (prepare enc est maxp q) as [[q' e1]|] eqn:Ep; [|discriminate].
+        destruct (run_script enc eresize e1 maxp r) as [[l1 e2]|] eqn:Er; [|discriminate].
+        inversion H; subst. specialize (IH _ _ _ _ Er).
+        destruct q; cbn [prepare] in Ep.
+        * inversion Ep; subst. cbn [blocks flat_map enc_trace app]. exact IH.
+        * destruct (enc est fields) as [bytes e'] eqn:Ee. destruct (split_chunks _ _ bytes) as [ch|] eqn:Es; [|discriminate].
+          inversion Ep; subst. cbn [blocks flat_map enc_trace app]. rewrite Ee. fold (blocks l1).
+          rewrite (proj1 (split_chunks_concat _ _ _ _ Es)), IH. reflexivity.
+        * destruct (enc est fields) as [bytes e'] eqn:Ee. destruct (split_chunks _ _ bytes) as [ch|] eqn:Es; [|discriminate].
+          inversion Ep; subst. cbn [blocks flat_map enc_trace app]. rewrite Ee. fold (blocks l1).
+          rewrite (proj1 (split_chunks_concat _ _ _ _ Es)), IH. reflexivity.
+        * inversion Ep; subst. cbn [blocks flat_map enc_trace app]. exact IH.
+        * inversion Ep; subst. cbn [blocks flat_map enc_trace app]. exact IH.
+      + destruct (run_script enc eresize est maxp r) as [[l1 e2]|] eqn:Er; [|discriminate].
+        inversion H; subst. cbn [blocks flat_map enc_trace app]. exact (IH _ _ _ _ Er).
+      + cbn [enc_trace]. exact (IH _ _ _ _ H).
+      + cbn [enc_trace]. exact (IH _ _ _ _ H).
+  Qed.
+End Order.
